@@ -581,7 +581,10 @@ class SymNP(types.ModuleType):
 
     def exp(self, x, *a, **k):
         if _has_sym(x):
-            raise Unsupported("exp of symbolic value")
+            from .sym import sym_exp
+            if is_sym(x):
+                return sym_exp(x)
+            return _map(lambda e: sym_exp(e if is_sym(e) else Sym(lift(e))), x)
         return _np.exp(x, *a, **k)
 
     def divide(self, a, b, *r, **k):
